@@ -50,8 +50,23 @@ class time_guard(object):
     def __init__(self, seconds):
         self.seconds = seconds
 
-    def _raise(self, *a):
-        raise HarnessTimeout()
+    def _raise(self, signum=None, frame=None):
+        # where the code under test was when the budget ran out (innermost amoco frame)
+        # (generic helpers - the structure unpackers, the file wrapper - are skipped when a caller is more specific)
+        site = generic = ""
+        f = frame
+        while f is not None:
+            fn = f.f_code.co_filename
+            if "/amoco/" in fn:
+                rel = fn.split("/amoco/", 1)[1]
+                here = "%s:%s" % (rel, f.f_code.co_name.lstrip("_"))
+                if rel.startswith("system/structs/") or rel == "system/core.py":
+                    generic = generic or here
+                else:
+                    site = here
+                    break
+            f = f.f_back
+        raise HarnessTimeout(site or generic)
 
     def __enter__(self):
         import signal, threading
